@@ -86,16 +86,25 @@ def run_variant(patch, props, repo):
         shutil.rmtree(tmp, ignore_errors=True)
 
 
-def main(prop=None, jobs=16, quiet=False, repo=None, results=None):
+def main(prop=None, jobs=16, quiet=False, repo=None, results=None,
+         benign_share=None):
     """Exit code 0: every catalogued change that applies was judged as
-    expected; 3 otherwise."""
+    expected; 3 otherwise.  benign_share=(i, n): run only every n-th benign
+    change, offset i (the thorough tier of one property takes its share; the
+    29 properties together cover the whole catalogue several times)."""
     repo = repo or REPO
     props = ALL if prop in (None, 'all') else [prop]
     cat = catalogue()
     todo = []
+    nb = 0
     for kind, name, pf, exp in cat:
         if kind == 'break' and not (set(exp) & set(props)):
             continue
+        if kind != 'break':
+            nb += 1
+            if benign_share is not None and \
+                    nb % benign_share[1] != benign_share[0] % benign_share[1]:
+                continue
         todo.append((kind, name, pf, exp))
     bad = []
     skipped = []
